@@ -57,6 +57,7 @@ type Scenario struct {
 	ChunkBytes int          `json:"chunkBytes"` // Forward chunk byte limit (hook H3)
 	BatchLogs  int          `json:"batchLogs"`  // defs.IntermediateBufferMaxNumLogs
 	Reloader   bool         `json:"reloader,omitempty"` // run with NewReloaderFromConfigFile
+	Family     string       `json:"family,omitempty"`   // generator family (classification only)
 	Gens       []Generation `json:"gens"`
 }
 
